@@ -88,7 +88,7 @@ def run(ctx, scale=1):
         a, b = s.split('|')
         A, B = parse_tok(a), parse_tok(b)
         cases.append((A, B, 'corpus', observe(impl, A, B)))
-    total = ctx.n(6000, 200000) * scale
+    total = ctx.n(20000, 300000) * scale
     for part in core.pmap(work, core.chunks(ctx, total)):
         cases.extend(part)
     lines = ['inter %s %s' % (tok(A), tok(B)) for A, B, _, _ in cases]
